@@ -236,7 +236,12 @@ class Gen:
     def exceptions(self):
         r = self.rng
         n = self.n = self.n + 1
-        kind = r.choice(["deep", "finally_return", "nested", "runtime", "loop", "rethrow"])
+        kind = r.choice(["deep", "finally_return", "nested", "runtime", "loop", "rethrow", "loopexit"])
+        if kind == "loopexit":
+            # continue/break out of a try inside a loop, then a later throw caught by the caller (see Directed)
+            d = Directed(r)
+            d.n = 1000 * n
+            return d.loop_try_exit()
         if kind == "deep":
             d = r.randint(1, 30)
             return ["fn thrower%d(k) { if k == 0 { throw \"deep%d\"; } return thrower%d(k - 1) + 1; }" % (n, n, n),
@@ -660,8 +665,160 @@ class Directed:
                                "var f1 = m.fresh_one();", self.alloc(), show % "f1"]
         return main, "\n".join(mod) + "\n"
 
+    # --- `continue` / `break` leaving a try block inside a loop, FOLLOWED by a later throw in the same activation that
+    #     must reach the caller's handler (a stale handler would truncate the stack above len: clamped in checked builds,
+    #     grown back over dead slots in raw builds)
+    def loop_try_exit(self):
+        r = self.rng
+        u = self.uid()
+        how = r.choice(["continue", "break", "continue", "both"])
+        loop = r.choice(["for", "while", "for"])
+        nloc = r.randint(0, 5)
+        tail = r.choice(["catch", "finally", "catchfinally"])
+        depth = r.randint(1, 2)
+        late = r.choice(["throw \"late\";", "throw [\"late\", %d];" % u, "var boom = [][3];", "nil.missing;", "thrower%d();" % u,
+                         "var zz = 1 + \"a\";"])
+        locs = " ".join("var l%d = \"loc%d-${i}\";" % (j, j) for j in range(nloc))
+        use = " ".join("l%d" % j for j in range(nloc))
+        exit_stmt = {"continue": "if i == 2 { continue; }", "break": "if i == 3 { break; }",
+                     "both": "if i == 2 { continue; } if i == 4 { break; }"}[how]
+        handler = {"catch": "catch e { print(\"loop handler: ${e} / ${tag}\"); }",
+                   "finally": "finally { print(\"loop finally ${tag}\"); }",
+                   "catchfinally": "catch e { print(\"loop handler: ${e} / ${tag}\"); } finally { print(\"fin ${tag}\"); }"}[tail]
+        inner = "%s print(\"ok ${tag} %s\");" % (exit_stmt, " ".join("${l%d}" % j for j in range(nloc)))
+        body = "try { %s } %s" % (inner, handler)
+        if depth == 2:
+            body = "try { %s } catch e2 { print(\"mid handler ${e2}\"); }" % body
+        if loop == "for":
+            lp = ["  for i in [1, 2, 3, 4, 5] {", "    var tag = \"item ${i}\"; %s" % locs, "    " + body, "  }"]
+        else:
+            lp = ["  var i = 0;", "  while i < 5 {", "    i += 1; var tag = \"item ${i}\"; %s" % locs, "    " + body, "  }"]
+        fn = ["fn thrower%d() { throw \"from callee\"; }" % u, "fn run%d(seed) {" % u, "  var before = [seed, \"b\"];"] + lp + \
+             ["  print(\"loop done ${before}\");", "  " + late, "  return \"not reached\";", "}"]
+        call = ["try { print(run%d(%d)); } catch e { var mine = \"outer local\"; print(\"outer: ${e} ${mine}\"); }" % (u, u),
+                "print(\"after\");"]
+        if r.random() < 0.3:
+            call = ["var fb%d = Fiber.new(|| { try { return run%d(%d); } catch e { return \"fiber outer: ${e}\"; } });" % (u, u, u),
+                    "print(fb%d.call());" % u, "print(\"after\");"]
+        return fn + call
+
+    # --- arithmetic that is overflow-checked in dev and wrapping in release, driven to its extremes
+    ARITH_PRELUDE = [
+        "fn t(f) { try { print(f()); } catch e { print(e.context); } }",
+        "var INF = 1 / 0; var NINF = -1 / 0; var NAN = 0 / 0;",
+        "var P31 = 2147483648; var P32 = 4294967296; var P53 = 9007199254740992; var P63 = 9223372036854775808; var P64 = P63 * 2;",
+        "var BIG = P64 * P64 * P64 * P64; BIG = BIG * BIG * BIG * BIG; var TINY = 1 / BIG / P64;",
+        "fn rep(s, n) { var out = \"\"; for i in 0..n { out = out + s; } return out; }",
+        "fn probe(k) { try { var m = {}; m.insert(k, \"v\"); m.insert(k, \"w\"); var r = [m.has_key(k), m.get(k), m.len()]; "
+        "var lit = {k: 1, \"other\": 2}; r.push(lit.len()); r.push(lit.get(k)); r.push(m.remove(k)); r.push(m.len()); "
+        "r.push(m.has_key(k)); print(r); } catch e { print(e.context); } }",
+    ]
+    NUMS = ["0", "-0", "1", "-1", "0.5", "-2.5", "127", "128", "255", "256", "65535", "65536", "P31", "P31 - 1", "-P31", "P32", "P32 - 1",
+            "P53", "P53 - 1", "P53 + 2", "-P53", "P63", "P63 - 1024", "-P63", "-P63 - 2048", "P64", "-P64", "BIG", "-BIG",
+            "BIG * BIG", "TINY", "-TINY", "INF", "NINF", "NAN", "0.1 + 0.2", "1 / 3"]
+
+    def tuple_expr(self, depth):
+        r = self.rng
+        n = r.randint(0, 6)
+        els = []
+        for _ in range(n):
+            c = r.random()
+            if depth > 0 and c < 0.35:
+                els.append(self.tuple_expr(depth - 1))
+            elif c < 0.6:
+                els.append(r.choice(self.NUMS))
+            elif c < 0.8:
+                els.append("rep(\"%s\", %d)" % (r.choice(["a", "é", "xy"]), r.choice([0, 1, 7, 8, 9, 33, 100])))
+            else:
+                els.append(r.choice(["nil", "true", "false", "0..3", "(-P63)..P63", "Vec", "String", "Box"]))
+        if n == 1:
+            return "(%s,)" % els[0]
+        return "(%s)" % ", ".join(els)
+
+    def arith(self):
+        r = self.rng
+        kinds = ["hash_tuples", "hash_nums", "hash_strs", "hash_misc", "index", "slice", "ranges", "strconv", "float_ops",
+                 "bit_ops", "pacing", "hash_tuples", "index"]
+        self.arith_i = getattr(self, "arith_i", -1) + 1
+        kind = kinds[self.arith_i % len(kinds)]       # every kind at least twice per run
+        pre = list(self.ARITH_PRELUDE)
+        N = self.NUMS
+        if kind == "hash_nums":
+            ks = r.sample(N, 14)
+            body = ["for k in [%s] { probe(k); }" % ", ".join(ks),
+                    "var all = {}; for k in [%s] { all.insert(k, [k]); } print(all.len()); print(all.get(P63)); print(all.get(-0)); print(all.get(NAN));" % ", ".join(N)]
+        elif kind == "hash_strs":
+            lens = r.sample([0, 1, 2, 3, 7, 8, 9, 15, 16, 17, 31, 32, 33, 63, 64, 65, 99, 100], 9)
+            body = ["for n in [%s] { probe(rep(\"a\", n)); probe(rep(\"é\", n)); probe(rep(\"🙂z\", n)); }" % ", ".join(map(str, lens)),
+                    "var sm = {}; for n in 0..101 { sm.insert(rep(\"q\", n), n); } print(sm.len()); print(sm.get(rep(\"q\", 100))); print(sm.get(\"\"));"]
+        elif kind == "hash_tuples":
+            ts = [self.tuple_expr(r.randint(0, 3)) for _ in range(8)] + ["(1, 2)", "(2, 1)", "(P63, P63)", "(NAN, NAN)",
+                                                                          "(INF, NINF, BIG, -BIG, P64, -P64)", "((((1, 2),),),)"]
+            body = ["probe(%s);" % x for x in ts]
+            body += ["var grid = {}; for x in 0..6 { for y in 0..6 { grid.insert((x, y), x * 10 + y); grid.insert((x, (y, (x, (y,)))), 1); } }",
+                     "print(grid.len()); print(grid.get((1, 2))); print(grid.get((2, 1))); print(grid.has_key((5, (5, (5, (5,)))))); print(grid.get((6, 6)));",
+                     "var lit = {(1, 2): \"ne\", (): 0, (P63, -P63, BIG): 3}; print(lit.get((1, 2))); print(lit.get(())); print(lit.get((P63, -P63, BIG))); print(lit);"]
+        elif kind == "hash_misc":
+            ks = ["true", "false", "nil", "Vec", "String", "HashMap", "Box", "Tuple", "Range", "0..0", "0..1", "1..0", "(-P63)..P63", "0..P53",
+                  "P53..0", "(P63 - 1024)..P63", "(-5)..5", "[1]", "{}", "Box.new(1)", "|x| x", "print", "(1, [2])", "(1, (2, {}))",
+                  "Fiber.new(|| 1)", "[].push", "\"s\".iter()"]
+            r.shuffle(ks)
+            body = ["probe(%s);" % k for k in ks]
+        elif kind == "index":
+            idx = r.sample(N, 12) + ["2", "-3", "3", "-4"]
+            body = ["var cs = [\"abc\", \"aé🙂z\", [1, 2, 3], (1, 2, 3), \"\", [], ()];",
+                    "for i in [%s] { for c in cs { t(|| c[i]); } }" % ", ".join(idx),
+                    "for i in [%s] { t(|| { var v = [1, 2, 3]; v[i] = 9; return v; }); }" % ", ".join(r.sample(N, 8) + ["-1", "2", "3"]),
+                    "for i in [%s] { t(|| \"abcdef\".char_byte_index(i)); t(|| \"abcabc\".find(\"c\", i)); }" % ", ".join(r.sample(N, 8) + ["0", "5", "6"])]
+        elif kind == "slice":
+            bs = r.sample(N, 7) + ["0", "2", "-1"]
+            body = ["var cs = [\"abcdef\", \"aé🙂z\", [1, 2, 3, 4], (1, 2, 3, 4)];",
+                    "for a in [%s] { for b in [%s] { t(|| a..b); for c in cs { t(|| c[a..b]); } } }" % (", ".join(bs), ", ".join(r.sample(N, 5) + ["3", "-2"]))]
+        elif kind == "ranges":
+            body = ["for rg in [0..0, 0..3, 3..0, (-P63)..P63, P63..(-P63), (P63 - 2048)..P63, (1024 - P63)..(-P63), 0..P53, (-P53)..(P53 + 2), "
+                    "(P63 - 1024)..(P63 - 1024), (-2)..2] {",
+                    "  print(rg); var it = rg.iter(); print(it.next()); print(it.next()); var n = 0; for x in rg { n += 1; if n == 3 { print(x); break; } } print(n); probe(rg);",
+                    "}",
+                    "t(|| ((P63 - 2048)..P63).iter().collect().len()); t(|| ((1024 - P63)..(-P63)).iter().collect().len());",
+                    "t(|| ((P63 - 2048)..P63).iter().map(|x| x + 1).filter(|x| x > 0).collect().len());",
+                    "t(|| (0..5).iter().reduce(|a, b| a * P63 + b, 1));",
+                    "for a in [%s] { t(|| a..1); t(|| 1..a); }" % ", ".join(r.sample(N, 10))]
+        elif kind == "strconv":
+            vals = ["0", "1", "9", "10", "65", "126", "127", "128", "129", "255", "256", "257", "55295", "55296", "57343", "57344", "65535", "65536",
+                    "1114111", "1114112", "P31", "P32", "P53", "P63", "-1", "-128", "-P63", "0.5", "NAN", "INF", "NINF", "BIG"]
+            body = ["for v in [%s] { t(|| String.from_ascii([v])); t(|| String.from_utf8([v])); t(|| String.from_code_points([v])); "
+                    "t(|| String.from_code_points([65, v, 66]).len()); }" % ", ".join(vals),
+                    "t(|| String.from_utf8([240, 159, 153, 130])); t(|| String.from_utf8([240, 159, 153])); t(|| String.from_utf8([195, 40])); "
+                    "t(|| String.from_ascii([72, 105, 0, 127]).to_bytes());",
+                    "for s in [\"1e400\", \"-1e400\", \"9223372036854775808\", \"-9223372036854775809\", \"18446744073709551616\", \"nan\", \"inf\", \"-0\", "
+                    "\"0x10\", \"1e-400\", \"4.9e-324\", \"1.7976931348623157e308\", \"0.1\", \"\", \" 1\", \"1_0\"] { t(|| s.to_num()); }",
+                    "t(|| rep(\"🙂é\", 40).count_chars()); t(|| rep(\"🙂é\", 40).len()); t(|| rep(\"ab\", 50).to_code_points().len()); "
+                    "t(|| rep(\"a,\", 60).split(\",\").len()); t(|| rep(\"ab\", 64).replace(\"a\", rep(\"x\", 33)).len());",
+                    "t(|| String.from(P63)); t(|| String.from(-P64)); t(|| String.from(BIG)); t(|| String.from(TINY)); t(|| \"${P53 + 2} ${-0} ${NAN} ${1 / 3}\");"]
+        elif kind == "float_ops":
+            xs = r.sample(N, 9)
+            ys = r.sample(N, 7)
+            body = ["for x in [%s] { for y in [%s] {" % (", ".join(xs), ", ".join(ys)),
+                    "  print([x + y, x - y, x * y, x / y, x % y, -x, x < y, x <= y, x == y, x != y, x > y]);",
+                    "} }",
+                    "var acc = 1; for i in 0..1100 { acc = acc * 2; } print(acc); acc = 1; for i in 0..1100 { acc = acc / 2; } print(acc);",
+                    "var c = P53; c += 1; print(c == P53); c -= P53; print(c); c *= BIG; c *= BIG; print(c); c /= 0; print(c); c %= 0; print(c);"]
+        elif kind == "bit_ops":
+            xs = r.sample(N, 10) + ["5", "-5"]
+            cnt = ["0", "1", "31", "32", "33", "62", "63", "64", "65", "127", "128", "-1", "-63", "-64", "P31", "P53", "P63", "2.5", "NAN", "INF"]
+            body = ["for x in [%s] { t(|| ~x); for y in [%s] { t(|| [x & y, x | y, x ^ y]); } }" % (", ".join(xs), ", ".join(r.sample(N, 6))),
+                    "for x in [1, -1, 3, P31, P53, P63 - 1024, -P63, 0.5] { for n in [%s] { t(|| x << n); t(|| x >> n); } }" % ", ".join(cnt),
+                    "var b = 1; b <<= 62; print(b); b <<= 1; print(b); b <<= 1; print(b); b >>= 70; print(b); b |= P63; print(b); b &= -1; print(b); b ^= P53; print(b);"]
+        else:
+            body = ["var s = \"x\"; for i in 0..17 { s = s + s; } print(s.len());",
+                    "var v = []; for i in 0..3000 { v.push(i); } print(v.len()); var vv = []; for i in 0..400 { vv.push([i]); } print(vv.len());",
+                    "var big = rep(\"0123456789\", 2000); print(big.len()); print(big.split(\"5\").len()); print(big.replace(\"0\", \"\").len());",
+                    "var m = {}; for i in 0..600 { m.insert(i * P32, \"v${i}\"); } print(m.len()); print(m.get(599 * P32));"]
+        return pre + body
+
     FAMILIES = [("ret_finally", 16), ("bound_receiver", 7), ("native_args", 12), ("class_building", 4), ("iterating", 7),
-                ("fiber_held", 10), ("misc", 8), ("module", 3)]
+                ("fiber_held", 10), ("misc", 8), ("module", 3),
+                ("loop_try_exit", 12), ("arith", 26)]
 
     def programs(self):
         """about 65 programs: [{name, line, src, snippets, kinds}]"""
@@ -676,7 +833,7 @@ class Directed:
                     continue
                 body = getattr(self, fam)()
                 wrap = self.rng.random()
-                if wrap < 0.35 and fam not in ("class_building",) and not any(l.startswith(("fn ", "class ", "#[")) for l in body):
+                if wrap < 0.35 and fam not in ("class_building", "arith", "loop_try_exit") and not any(l.startswith(("fn ", "class ", "#[")) for l in body):
                     body = ["fn scoped() {"] + ["  " + l for l in body] + ["}", "scoped();"]
                 src = "\n".join(self.PRELUDE + body) + "\n"
                 out.append({"name": "dir:%s:%d" % (fam, i), "line": "run stats=1 " + hx(src), "src": src, "kinds": [fam]})
@@ -917,7 +1074,7 @@ def differential(ctx, cfgs, n_generated, label):
     c["programs"] = c.get("programs", 0) + len(progs)
     c["programs_repo"] = len(repo)
     c["programs_generated"] = c.get("programs_generated", 0) + n_generated
-    c["programs_directed_gc_edges"] = c.get("programs_directed_gc_edges", 0) + len(directed)
+    c["programs_directed"] = c.get("programs_directed", 0) + len(directed)
     c["repo_scripts_skipped"] = skipped
     c["evaluations"] = c.get("evaluations", 0) + len(progs) * len(cfgs)
     c["programs_all_builds_agree"] = c.get("programs_all_builds_agree", 0) + agree
